@@ -15,7 +15,8 @@ as a tag through `Point.setTag`), `retSt x s` (append to the return registers), 
 (`s'` differs from `s` at most in the point key `k`).  The engines are oracles: every contract
 names the question put to the engine (`castQuery`, `strQuery`, `regexCompileQuery`,
 `regexReplaceQuery`, `jsonLoadQuery`, `sprintfQuery`, `jsonQuery`, `fmtfQuery`) and says what is done
-with its answer.
+with its answer.  `selfArg heap args vs` is the first argument of strfmt / printf (with its value)
+whose value contains itself (`containsItself`, e.g. after `a[0] = a`): such a value is not formatted.
 -/
 namespace Platypus.C11
 open Platypus Platypus.C12
@@ -591,17 +592,58 @@ theorem replace_stores_result (f : Nat) (name : Bytes) (kn : Node) (k pat rep : 
 /-! ## 9. strfmt, printf -/
 
 /-- `strfmt(k, "fmt", args…)`: the arguments are evaluated left to right (`evalList`, values `vs`,
-    state `s1`), the formatting engine is asked `sprintfQuery fmt heap vs`, and its result is
+    state `s1`); when none of the values contains itself (`selfArg … = none`; see
+    `no_self_arg_iff`), the formatting engine is asked `sprintfQuery fmt heap vs`, and its result is
     stored under the destination key `k` as a string; nothing else changes. -/
 theorem strfmt_stores_result (f : Nat) (name : Bytes) (kn : Node) (rest : List Node) (k fmts : Bytes) (p2 np : Pos)
     (site : Nat) (s s1 : St) (vs : List TV) (a : Bytes) (hk : getKeyName kn = .ok k)
     (he : evalList env f rest s = .ok vs s1)
+    (hself : selfArg s1.world.heap rest vs = none)
     (ha : env.oracle (sprintfQuery fmts s1.world.heap vs) = some a) :
     builtin env (f+1) .strfmt name (kn :: .strLit fmts p2 :: rest) np site s =
       .ok () (withPt s1 (s1.world.pt.set (normKey k) ⟨.str (unhex (splitAnswer a).2), .str⟩
         (some (unhex (splitAnswer a).2)))) := by
   rw [strfmt_eq env f name kn rest k fmts p2 np site hk]
-  simp [bind, EM.bind, he, getS, ask_some env ha, setPt_str]
+  simp [bind, EM.bind, he, getS, hself, ask_some env ha, setPt_str]
+
+/-- **strfmt of a value that contains itself** (`a[0] = a`): when some evaluated argument's value
+    contains itself — `n` the *first* such argument, `x` its value (`first_self_arg`) — the call
+    ends with a run error positioned at the start of `n`; the state is the state after evaluating
+    the arguments (the point is not written, nothing is printed).  There is no hypothesis about the
+    engines: none is asked (`strfmt_contains_itself_no_engine`). -/
+theorem strfmt_contains_itself (f : Nat) (name : Bytes) (kn : Node) (rest : List Node) (k fmts : Bytes) (p2 np : Pos)
+    (site : Nat) (s s1 : St) (vs : List TV) (n : Node) (x : TV) (hk : getKeyName kn = .ok k)
+    (he : evalList env f rest s = .ok vs s1)
+    (hself : selfArg s1.world.heap rest vs = some (n, x)) :
+    builtin env (f+1) .strfmt name (kn :: .strLit fmts p2 :: rest) np site s =
+      .err (PlErr.new s1.task.name (Node.start n) "formats-a-value-that-contains-itself") s1 := by
+  rw [strfmt_eq env f name kn rest k fmts p2 np site hk]
+  simp [bind, EM.bind, he, getS, hself, runErr]
+
+/-- … in particular the call never stops at a question to an engine, whatever the engines know -/
+theorem strfmt_contains_itself_no_engine (f : Nat) (name : Bytes) (kn : Node) (rest : List Node) (k fmts : Bytes)
+    (p2 np : Pos) (site : Nat) (s s1 : St) (vs : List TV) (n : Node) (x : TV) (hk : getKeyName kn = .ok k)
+    (he : evalList env f rest s = .ok vs s1)
+    (hself : selfArg s1.world.heap rest vs = some (n, x)) (q : Bytes) :
+    builtin env (f+1) .strfmt name (kn :: .strLit fmts p2 :: rest) np site s ≠ .need q := by
+  rw [strfmt_contains_itself env f name kn rest k fmts p2 np site s s1 vs n x hk he hself]
+  intro h; cases h
+
+/-- the hypothesis of the positive contracts, spelled out: after `evalList` (one value per
+    argument) `selfArg` finds nothing exactly when no evaluated value contains itself -/
+theorem no_self_arg_iff (f : Nat) (rest : List Node) (s s1 : St) (vs : List TV)
+    (he : evalList env f rest s = .ok vs s1) (h : Heap) :
+    selfArg h rest vs = none ↔ ∀ x ∈ vs, containsItself h x.v = false :=
+  selfArg_none_iff (evalList_length env rest f s s1 vs he)
+
+/-- the hypothesis of the error contracts, spelled out: `selfArg` finds the pair `(n, x)` exactly
+    when for some position `i`, `n` is the `i`-th argument, `x` the `i`-th value, `x` contains
+    itself, and no earlier value does -/
+theorem first_self_arg (h : Heap) (rest : List Node) (vs : List TV) (n : Node) (x : TV) :
+    selfArg h rest vs = some (n, x) ↔
+      ∃ i : Nat, rest[i]? = some n ∧ vs[i]? = some x ∧ containsItself h x.v = true ∧
+        ∀ (j : Nat) (y : TV), j < i → vs[j]? = some y → containsItself h y.v = false :=
+  selfArg_some_iff
 
 /-- strfmt: an argument evaluation error is the call's error; the point is not written -/
 theorem strfmt_arg_error (f : Nat) (name : Bytes) (kn : Node) (rest : List Node) (k fmts : Bytes) (p2 np : Pos)
@@ -611,20 +653,50 @@ theorem strfmt_arg_error (f : Nat) (name : Bytes) (kn : Node) (rest : List Node)
   rw [strfmt_eq env f name kn rest k fmts p2 np site hk]
   simp [bind, EM.bind, he]
 
-/-- `printf(fmt, args…)` with a non-empty string format: the engine's result is appended to the
-    trace as standard output (`Event.out`); nothing else changes beyond what evaluating did. -/
+/-- `printf(fmt, args…)` with a non-empty string format, none of the evaluated values containing
+    itself: the engine's result is appended to the trace as standard output (`Event.out`); nothing
+    else changes beyond what evaluating did. -/
 theorem printf_prints (f : Nat) (name : Bytes) (a0 : Node) (rest : List Node) (np : Pos) (site : Nat)
     (s s1 s2 : St) (fmts : Bytes) (vs : List TV) (a : Bytes)
     (h0 : evalNode env f a0 s = .ok ⟨.str fmts, .str⟩ s1) (hne : fmts ≠ [])
     (he : evalList env f rest s1 = .ok vs s2)
+    (hself : selfArg s2.world.heap rest vs = none)
     (ha : env.oracle (sprintfQuery fmts s2.world.heap vs) = some a) :
     builtin env (f+1) .printf name (a0 :: rest) np site s = .ok () (outSt (unhex (splitAnswer a).2) s2) := by
   have ha' : env.oracle (B "sprintf:" ++ hexOf fmts ++ [58] ++
       (vs.foldl (fun (acc : Bytes) (x : TV) => acc ++ renderV s2.world.heap x.v ++ [59]) [])) = some a := ha
+  have hself' : (rest.zip vs).find? (fun (nx : Node × TV) => containsItself s2.world.heap nx.2.v) = none := hself
   have hne' : fmts.isEmpty = false := by cases fmts <;> simp_all
   simp only [builtin, h0, hne']
-  simp only [bind, EM.bind, he, getS, ask_some env ha', modWorld, modifyS, outSt]
+  simp only [bind, EM.bind, he, getS, hself', ask_some env ha', modWorld, modifyS, outSt]
   simp
+
+/-- **printf of a value that contains itself**: with a non-empty string format, when some evaluated
+    further argument's value contains itself — `n` the *first* such argument, `x` its value
+    (`first_self_arg`) — the call ends with a run error positioned at the start of `n`; the state is
+    the state after evaluating the arguments: nothing is printed, the point is untouched.  No engine
+    is asked (no hypothesis about the oracle; `printf_contains_itself_no_engine`). -/
+theorem printf_contains_itself (f : Nat) (name : Bytes) (a0 : Node) (rest : List Node) (np : Pos) (site : Nat)
+    (s s1 s2 : St) (fmts : Bytes) (vs : List TV) (n : Node) (x : TV)
+    (h0 : evalNode env f a0 s = .ok ⟨.str fmts, .str⟩ s1) (hne : fmts ≠ [])
+    (he : evalList env f rest s1 = .ok vs s2)
+    (hself : selfArg s2.world.heap rest vs = some (n, x)) :
+    builtin env (f+1) .printf name (a0 :: rest) np site s =
+      .err (PlErr.new s2.task.name (Node.start n) "formats-a-value-that-contains-itself") s2 := by
+  have hself' : (rest.zip vs).find? (fun (nx : Node × TV) => containsItself s2.world.heap nx.2.v) = some (n, x) := hself
+  have hne' : fmts.isEmpty = false := by cases fmts <;> simp_all
+  simp only [builtin, h0, hne']
+  simp [bind, EM.bind, he, getS, hself', runErr]
+
+/-- … in particular the call never stops at a question to an engine, whatever the engines know -/
+theorem printf_contains_itself_no_engine (f : Nat) (name : Bytes) (a0 : Node) (rest : List Node) (np : Pos)
+    (site : Nat) (s s1 s2 : St) (fmts : Bytes) (vs : List TV) (n : Node) (x : TV)
+    (h0 : evalNode env f a0 s = .ok ⟨.str fmts, .str⟩ s1) (hne : fmts ≠ [])
+    (he : evalList env f rest s1 = .ok vs s2)
+    (hself : selfArg s2.world.heap rest vs = some (n, x)) (q : Bytes) :
+    builtin env (f+1) .printf name (a0 :: rest) np site s ≠ .need q := by
+  rw [printf_contains_itself env f name a0 rest np site s s1 s2 fmts vs n x h0 hne he hself]
+  intro h; cases h
 
 /-- printf: an evaluation error of a *further* argument is the call's error; nothing is printed -/
 theorem printf_arg_error (f : Nat) (name : Bytes) (a0 : Node) (rest : List Node) (np : Pos) (site : Nat)
@@ -879,11 +951,15 @@ theorem strfmt_frame (f : Nat) (name : Bytes) (kn : Node) (rest : List Node) (k 
     PtWrite (normKey k) s1 s' := by
   rw [strfmt_eq env f name kn rest k fmts p2 np site hk] at hrun
   simp only [bind, EM.bind, he, getS] at hrun
-  split at hrun <;> try (simp at hrun)
-  rename_i a s2 h2
-  have := ask_state env h2
-  subst this
-  exact setPt_frame env k _ _ s' hrun
+  cases hself : selfArg s1.world.heap rest vs with
+  | some nx => simp [hself, runErr] at hrun
+  | none =>
+    simp only [hself, EM.bind] at hrun
+    split at hrun <;> try (simp at hrun)
+    rename_i a s2 h2
+    have := ask_state env h2
+    subst this
+    exact setPt_frame env k _ _ s' hrun
 
 /-- what `PtWrite` says, spelled out for the point -/
 theorem frame_spelled_out (k : Bytes) (s s' : St) (h : PtWrite k s s') :
@@ -965,5 +1041,70 @@ theorem example_url_decode_error :
      | .err e s' => some (e, s'.world.pt, s'.task.regs)
      | _ => none)
     = some (PlErr.new [110] Ex3.p0 "engine-error", Ex3.pt, []) := by decide +kernel
+
+namespace Ex4
+def k : Bytes := [107]                       -- "k"
+def a : Bytes := [97]                        -- "a"
+def fmt : Bytes := [37, 118]                 -- "%v"
+def p0 : Pos := ⟨0, 1, 1⟩
+def pa : Pos := ⟨12, 1, 13⟩                  -- where the argument `a` starts
+/-- list 0 holds a reference to itself (`a[0] = a`) -/
+def heapSelf : Heap := [Obj.list [.ref 0]]
+/-- list 0 holds the int 1 -/
+def heapFlat : Heap := [Obj.list [.int 1]]
+def pt : Point := Point.init [109] [] [(k, .int 9)] 7
+def st (h : Heap) : St :=
+  { task := { name := [110], scopes := [[(a, ⟨.ref 0, .list⟩)]] }, world := { heap := h, pt := pt } }
+/-- no engine answers anything -/
+def envNone : Env :=
+  { bound := fun _ => none, fns := [], sigK := none, hasSignal := false, mapOrder := fun _ => 0, oracle := fun _ => none }
+/-- the formatting engine answers "ok:" ++ hex "[1]" to the question about the flat list -/
+def oracle (q : Bytes) : Option Bytes :=
+  if q = sprintfQuery fmt heapFlat [⟨.ref 0, .list⟩] then some ([111, 107, 58] ++ hexOf [91, 49, 93]) else none
+def env : Env :=
+  { bound := fun _ => none, fns := [], sigK := none, hasSignal := false, mapOrder := fun _ => 0, oracle := oracle }
+def args : List Node := [.ident k p0, .strLit fmt p0, .ident a pa]
+end Ex4
+
+/-- a list that holds a reference to itself contains itself … -/
+example : containsItself Ex4.heapSelf (.ref 0) = true := by decide
+/-- … a list of ints does not -/
+example : containsItself Ex4.heapFlat (.ref 0) = false := by decide
+/-- the rendering `[^0]`: the back reference is the byte `^` -/
+example : renderV Ex4.heapSelf (.ref 0) = [91, 94, 48, 93] := by decide +kernel
+
+/-- the first argument whose value contains itself is selected, with its position -/
+example : (selfArg Ex4.heapSelf [.ident Ex4.k Ex4.p0, .ident Ex4.a Ex4.pa] [⟨.int 3, .int⟩, ⟨.ref 0, .list⟩]).map
+    (fun nx => (Node.start nx.1, nx.2)) = some (Ex4.pa, ⟨.ref 0, .list⟩) := by decide +kernel
+example : selfArg Ex4.heapFlat [.ident Ex4.a Ex4.pa] [⟨.ref 0, .list⟩] = none := by decide +kernel
+
+/-- `strfmt(k, "%v", a)` with `a[0] = a`, *no* engine answering anything: a run error at the start
+    of the argument `a`; point, trace and heap are as before. -/
+theorem example_strfmt_contains_itself :
+    (match builtin Ex4.envNone 3 .strfmt [] Ex4.args Ex4.p0 0 (Ex4.st Ex4.heapSelf) with
+     | .err e s' => some (e, s'.world.pt, s'.world.trace, s'.world.heap)
+     | _ => none)
+    = some (PlErr.new [110] Ex4.pa "formats-a-value-that-contains-itself", Ex4.pt, [], Ex4.heapSelf) := by decide +kernel
+
+/-- the same call with `a = [1]` (hypothesis `selfArg … = none` holds): the engine's text is stored -/
+theorem example_strfmt_flat :
+    (match builtin Ex4.env 3 .strfmt [] Ex4.args Ex4.p0 0 (Ex4.st Ex4.heapFlat) with
+     | .ok _ s' => some (s'.world.pt.get Ex4.k, s'.world.trace)
+     | _ => none)
+    = some (some ⟨.str [91, 49, 93], .str⟩, []) := by decide +kernel
+
+/-- `printf("%v", a)` with `a[0] = a`, no engine: a run error at `a`, nothing printed -/
+theorem example_printf_contains_itself :
+    (match builtin Ex4.envNone 3 .printf [] [.strLit Ex4.fmt Ex4.p0, .ident Ex4.a Ex4.pa] Ex4.p0 0 (Ex4.st Ex4.heapSelf) with
+     | .err e s' => some (e, s'.world.pt, s'.world.trace)
+     | _ => none)
+    = some (PlErr.new [110] Ex4.pa "formats-a-value-that-contains-itself", Ex4.pt, []) := by decide +kernel
+
+/-- `printf("%v", a)` with `a = [1]`: the engine's text is printed -/
+theorem example_printf_flat :
+    (match builtin Ex4.env 3 .printf [] [.strLit Ex4.fmt Ex4.p0, .ident Ex4.a Ex4.pa] Ex4.p0 0 (Ex4.st Ex4.heapFlat) with
+     | .ok _ s' => some (s'.world.pt, s'.world.trace)
+     | _ => none)
+    = some (Ex4.pt, [Event.out [91, 49, 93]]) := by decide +kernel
 
 end Platypus.C11
